@@ -943,6 +943,55 @@ def mol_family(col, g, tier, k):
         return True, None
     col.check(f"MolGrid.interpolate:sum-of-atomic-interpolants:{var}", c_sum, inputs=inp, sample={"molecule": var})
 
+    def c_scale():
+        """'for every function': a function that is tiny on one atom (or everywhere) is interpolated like any other - interpolation is linear."""
+        off = np.concatenate([[0], np.cumsum(sizes)])
+        it = mol.interpolate(fvals)
+        base = np.asarray(it(P), dtype=float)
+        for c in (1e-9, 1e-13):
+            got = np.asarray(mol.interpolate(c * fvals)(P), dtype=float)
+            e, j = worst(got / c - base, np.abs(base) + 1e-3 * float(np.max(np.abs(base))))
+            if not e <= 1e-9:
+                return False, f"interpolant of {c:g} f at {P[j].tolist()} is {got[j]!r}, {c:g} times the interpolant of f is {c * base[j]!r}"
+        # tiny on the last atom's segment only: compare with the explicit sum of atomic interpolants
+        aw = np.asarray(mol.aim_weights, dtype=float)
+        small = fvals.copy()
+        small[off[-2]:] *= 1e-9
+        fresh = [make_grid(s_) for s_ in specs]
+        each = [np.asarray(fr.interpolate((aw * small)[off[a]:off[a + 1]])(P), dtype=float) for a, fr in enumerate(fresh)]
+        want = np.sum(each, axis=0)
+        got = np.asarray(mol.interpolate(small)(P), dtype=float)
+        tol = 1e-13 * np.sum(np.abs(each), axis=0) + 1e-300          # rounding of the sum; the tiny atom contributes about 1e-9 of it
+        if float(np.max(np.abs(each[-1]) / tol)) < 100.0:
+            return True, None                                        # the tiny contribution is below rounding at every sample point: nothing to see
+        bad = np.abs(got - want) > tol
+        if np.any(bad):
+            j = int(np.argmax(np.abs(got - want) / tol))
+            return False, (f"the contribution of an atom on which w_A f is of size 1e-9 is lost: at {P[j].tolist()} got {got[j]!r}, "
+                           f"sum of atomic interpolants {want[j]!r} (that atom contributes {each[-1][j]!r})")
+        return True, None
+    col.check(f"MolGrid.interpolate:tiny-functions-are-interpolated-too:{var}", c_scale, inputs=inp, sample={"molecule": var})
+
+    if k < 2:
+        def c_many():
+            """'at arbitrary points': the value at a point does not depend on how many other points are evaluated in the same call."""
+            Q = np.vstack([P, g.normal(size=(25000, 3)) * 2.0 + centers[0]])
+            it = mol.interpolate(fvals)
+            m = len(Q)
+            h = 9000
+            for kw in ({}, {"deriv": 1}, {"deriv": 1, "deriv_spherical": True}, {"deriv": 2, "only_radial_derivs": True}):
+                whole = np.asarray(it(Q, **kw), dtype=float)
+                a_, b_ = np.asarray(it(Q[:h], **kw), dtype=float), np.asarray(it(Q[h:], **kw), dtype=float)
+                if kw.get("deriv_spherical"):
+                    if whole.shape != (3 * m,):
+                        return True, None          # layout not the documented flat one: nothing to compare here
+                    whole, a_, b_ = whole.reshape(3, m).T, a_.reshape(3, h).T, b_.reshape(3, m - h).T
+                parts = np.concatenate([a_, b_], axis=0)
+                if whole.shape != parts.shape or not np.allclose(whole, parts, rtol=1e-10, atol=1e-12 * (1.0 + float(np.max(np.abs(parts))))):
+                    return False, f"{kw}: evaluating {m} points in one call differs from evaluating them in two calls (max {float(np.max(np.abs(whole - parts))):.3e})"
+            return True, None
+        col.check(f"MolGrid.interpolate:many-points-in-one-call:{var}", c_many, inputs=inp, sample={"molecule": var, "points": 25012})
+
     if aimkind == "constant-per-atom":
         ps = poly_spec(g, 3)
         pv = poly_eval(ps, mol.points)
